@@ -21,7 +21,7 @@ from mc.core import proc
 
 PROPERTY = "C20"
 LEVEL = "model_checking"
-RULE = ("states = distinct budget trees reachable from 9 initial trees by <= D commands (D=3 quick, 6 thorough or fixpoint); transitions = "
+RULE = ("states = distinct budget trees reachable from 13 initial trees by <= D commands (D=3 quick, 6 thorough or fixpoint); transitions = "
         "(tree, command) pairs over 13 commands, each executed by the real CLI in a forked process; invariant per transition = frame condition "
         "of the property for that command class (read-only / init / explicit migration)")
 ASSUMPTIONS = ["commands run non-interactively: stdin=/dev/null, stdout/stderr not a tty",
